@@ -52,14 +52,16 @@ def install(reg):
     def choices(ex, node, st, pc):
         if not (isinstance(node, ast.Call) and ast.unparse(node.func) == "random.choices"): return None
         kw = {k.arg: ex.expr(k.value, st, pc) for k in node.keywords}
+        for nm_, a_ in zip(("population", "weights"), node.args): kw[nm_] = ex.expr(a_, st, pc)      # random.choices(population, weights, k=n) as well as the all-keyword form
+        if not all(x in kw for x in ("population", "weights", "k")): raise Unsupported("random.choices without population, weights and k")
         pop, w, k = kw["population"], kw["weights"], kw["k"]
         ex.oblige(f"choices.aligned_lengths@{node.lineno}", "requires@call", pc, pop.t.len(pop.z) == w.t.len(w.z), node)
         ex.branch_exc(pc, pop.t.len(pop.z) == 0, "IndexError", node)
-        out = fresh(ListT(pop.t.elem), "drawn"); q = fresh_int("q"); r = z3.Function(f"pick!{uid()}", z3.IntSort(), z3.IntSort())
+        out = fresh(ListT(pop.t.elem), "drawn"); q = fresh_int("q"); pick = fresh(ArrT(INT, INT), "pick"); r = lambda x_: z3.Select(pick.z, x_)      # pick[q]: the index of the q-th draw (ghost)
         pc.append(out.t.len(out.z) == z3.If(k.z > 0, k.z, 0))
         pc.append(z3.ForAll([q], z3.Implies(z3.And(0 <= q, q < k.z), z3.And(0 <= r(q), r(q) < pop.t.len(pop.z), out.t.at(out.z, q) == pop.t.at(pop.z, r(q))))))
-        st.env["CHOICES_POP"] = pop; st.env["CHOICES_W"] = w
-        ex.rng_log.append(("choices", r)); ex.assumptions.add("random.choices(population, weights, k) returns k members of the population (drawn in proportion to the weights: assumed, not re-tested)")
+        st.env["CHOICES_POP"] = pop; st.env["CHOICES_W"] = w; st.env["CHOICES_OUT"] = out; st.env["CHOICES_PICK"] = pick
+        ex.rng_log.append(("choices", pick.z)); ex.assumptions.add("random.choices(population, weights, k) returns k members of the population (drawn in proportion to the weights: assumed, not re-tested)")
         return out
     reg.call_hooks.append(choices)
 
